@@ -616,17 +616,13 @@ func BuildFromAliasedTable(query *Query, as string, expr sqlparser.SimpleTableEx
 			if err != nil {
 				return err
 			}
-			data, err := subquery.exec()
+			// the rows are read by the enclosing query (its WHERE, its join keys, the
+			// arguments of its functions): the ASYNC calls of the derived table have
+			// to deliver their values first
+			data, err := subquery.execAndPostProcess()
 			if err != nil {
-				subquery.wg.Wait()
 				return err
 			}
-			query.postProcessors = append(query.postProcessors, subquery.postProcessors...)
-			query.wg.Add(1)
-			go func() {
-				subquery.wg.Wait()
-				query.wg.Done()
-			}()
 			array, err := AsArray(data)
 			if err != nil {
 				return err
@@ -1392,18 +1388,9 @@ func SubqueryExpr(query *Query, current Map, expr *sqlparser.Subquery, opts ...E
 	if err != nil {
 		return nil, err
 	}
-	rs, err := subQuery.exec()
-	if err != nil {
-		subQuery.wg.Wait()
-		return nil, err
-	}
-	query.postProcessors = append(query.postProcessors, subQuery.postProcessors...)
-	query.wg.Add(1)
-	go func() {
-		subQuery.wg.Wait()
-		query.wg.Done()
-	}()
-	return rs, nil
+	// the rows may be compared (IN) or handed to a function: the ASYNC calls of
+	// the subquery deliver their values before the rows are used
+	return subQuery.execAndPostProcess()
 }
 
 // Backward Navigation
